@@ -4,7 +4,7 @@
    Part 2: AllFresh (every cached table is the fresh chain of its document): preserved by all
            requests; cross-file answers are fresh under it.
    Part 3: the exact conditions under which change / save / close preserve AllFresh.
-   Part 4: outside the three known classes every answer of every history is fresh. *)
+   Part 4: outside the known classes every answer of every history is fresh. *)
 From GoldV Require Import Base Cache.
 
 (* ------------------------------------------------------------------------------------------ *)
@@ -465,8 +465,7 @@ Proof.
     split; [|split]; simpl; auto; try (intros; discriminate).
     intros d E; inversion E; subst; apply doc_ok_new.
   - apply WF_set; [exact W|]. intros i G. split; [|split]; simpl; intros; discriminate.
-  - apply WF_set; [exact W|]. intros i G. destruct (W p i G) as (Ks & Ko & Kt).
-    split; [|split]; simpl; auto; intros; discriminate.
+  - apply WF_set; [exact W|]. intros i G. split; [|split]; simpl; intros; discriminate.
   - destruct (request st k p) as [st' a] eqn:E. simpl.
     pose proof (request_wf st k p W) as [A _]. rewrite E in A. exact A.
 Qed.
@@ -1309,10 +1308,35 @@ Qed.
 
 Lemma close_iff st p :
   AllFresh st ->
-  (AllFresh (fst (step st (Close p))) <->
-   trigger_dep st (Close p) = false /\ trigger_close st (Close p) = false).
+  (AllFresh (fst (step st (Close p))) <-> trigger_dep st (Close p) = false).
 Proof.
-  intro F. simpl. unfold trigger_dep, trigger_close, changes_logical.
+  intro F. simpl. unfold trigger_dep, changes_logical.
+  set (f := fun i : dinfo => mkI (disk i) None None None).
+  destruct (get st p) as [i|] eqn:G.
+  2:{ rewrite set_info_none by exact G. split; auto. }
+  assert (Ec : cached_tables (f i) = []) by reflexivity.
+  assert (El : logical (f i) = disk i) by reflexivity.
+  destruct (version_eqb (disk i) (logical i)) eqn:Ev.
+  - apply version_eqb_eq in Ev. split; [reflexivity|]. intros _.
+    apply (edit_same_text st p f i F G); [congruence|]. rewrite Ec. intros t [].
+  - apply version_eqb_neq in Ev. split.
+    + intro F'. destruct (has_dependents st p) eqn:D; [|reflexivity].
+      exfalso. apply (edit_with_dependents st p f i F G); [congruence|exact D|exact F'].
+    + intro D. apply (edit_no_dependents st p f i F G Ec D).
+Qed.
+
+(* regression: the close handler before /repo 9bf8fa8 kept the DocumentInfo's table; it preserved AllFresh
+   only if, in addition, no table was held (or the text did not change) *)
+Lemma old_close_iff st p :
+  AllFresh st ->
+  (AllFresh (old_close st p) <->
+   trigger_dep st (Close p) = false /\
+   match get st p with
+   | Some i => version_eqb (disk i) (logical i) || match stab i with Some _ => false | None => true end
+   | None => true
+   end = true).
+Proof.
+  intro F. unfold old_close, trigger_dep, changes_logical.
   set (f := fun i : dinfo => mkI (disk i) None None (stab i)).
   destruct (get st p) as [i|] eqn:G.
   2:{ rewrite set_info_none by exact G. split; auto. }
@@ -1322,7 +1346,7 @@ Proof.
   destruct (version_eqb (disk i) (logical i)) eqn:Ev.
   - apply version_eqb_eq in Ev. split; [split; reflexivity|]. intros _.
     apply (edit_same_text st p f i F G); [congruence|exact Sub].
-  - apply version_eqb_neq in Ev. split.
+  - apply version_eqb_neq in Ev. simpl. split.
     + intro F'. split.
       * destruct (has_dependents st p) eqn:D; [|reflexivity].
         exfalso. apply (edit_with_dependents st p f i F G); [congruence|exact D|exact F'].
@@ -1340,7 +1364,7 @@ Proof.
 Qed.
 
 (* ------------------------------------------------------------------------------------------ *)
-(* Part 4: outside the three known classes every answer of every history is fresh              *)
+(* Part 4: outside the known classes every answer of every history is fresh              *)
 (* ------------------------------------------------------------------------------------------ *)
 
 Fixpoint acyc_run (st : state) (h : list event) : bool :=
@@ -1365,24 +1389,24 @@ Proof. simpl. destruct (request st k p); reflexivity. Qed.
 
 Lemma outside_invariant h : forall st,
   WF st -> AllFresh st -> acyc_run st h = true ->
-  known_by trigger_dep st h = false -> known_by trigger_close st h = false -> known_by trigger_tree st h = false ->
+  known_by trigger_dep st h = false -> known_by trigger_tree st h = false ->
   fresh_run st h = true /\
   WF (fst (run st h)) /\ AllFresh (fst (run st h)) /\ Acyc (fst (run st h)).
 Proof.
-  induction h as [|e h IH]; intros st W F AR KD KC KT.
+  induction h as [|e h IH]; intros st W F AR KD KT.
   - simpl in *. rewrite andb_true_r in AR. split; [reflexivity|]. split; [exact W|]. split; [exact F|apply acyclicb_Acyc; exact AR].
-  - rewrite run_fst_step. simpl in AR, KD, KC, KT.
+  - rewrite run_fst_step. simpl in AR, KD, KT.
     apply andb_true_iff in AR as [A AR]. apply acyclicb_Acyc in A.
-    apply orb_false_iff in KD as [TD KD]. apply orb_false_iff in KC as [TC KC]. apply orb_false_iff in KT as [TT KT].
+    apply orb_false_iff in KD as [TD KD]. apply orb_false_iff in KT as [TT KT].
     pose proof (step_wf st e W) as W'.
     assert (F' : AllFresh (fst (step st e))).
     { destruct e as [p|p v|p|p|k p].
       - exact F.
       - apply change_iff; assumption.
       - apply save_preserves; exact F.
-      - apply close_iff; [exact F|split; assumption].
+      - apply close_iff; assumption.
       - rewrite step_req. apply request_fresh; assumption. }
-    destruct (IH _ W' F' AR KD KC KT) as (R & Rest).
+    destruct (IH _ W' F' AR KD KT) as (R & Rest).
     split; [|exact Rest].
     cbn [fresh_run]. rewrite R, andb_true_r.
     destruct e as [p|p v|p|p|k p]; try reflexivity.
@@ -1395,7 +1419,7 @@ Qed.
 Definition after (ws : list version) (h : list event) : state := fst (run (init ws) h).
 
 Definition KnownClass_C02 (ws : list version) (h : list event) : bool :=
-  known_by trigger_dep (init ws) h || known_by trigger_close (init ws) h || known_by trigger_tree (init ws) h.
+  known_by trigger_dep (init ws) h || known_by trigger_tree (init ws) h.
 
 Lemma after_wf ws h : WF (after ws h).
 Proof. unfold after. apply run_wf. apply init_wf. Qed.
@@ -1405,7 +1429,7 @@ Lemma holds_outside ws h :
   fresh_run (init ws) h = true /\ WF (after ws h) /\ AllFresh (after ws h) /\ Acyc (after ws h).
 Proof.
   intros AR K. unfold KnownClass_C02 in K.
-  apply orb_false_iff in K as [K KT]. apply orb_false_iff in K as [KD KC].
+  apply orb_false_iff in K as [KD KT].
   apply outside_invariant; auto using init_wf, init_allfresh.
 Qed.
 
@@ -1428,7 +1452,7 @@ Qed.
 Lemma close_resets st p i :
   get st p = Some i ->
   exists i', get (fst (step st (Close p))) p = Some i' /\
-             logical i' = disk i /\ saved i' = None /\ opened i' = None /\ stab i' = stab i.
+             logical i' = disk i /\ saved i' = None /\ opened i' = None /\ stab i' = None.
 Proof.
   intro G. simpl. eexists. split; [apply get_set_same; exact G|]. simpl. repeat split; reflexivity.
 Qed.
@@ -1460,13 +1484,9 @@ Proof.
   unfold KnownClass_C02. simpl. rewrite !orb_false_r.
   assert (D : trigger_dep (init ws) e = false).
   { unfold trigger_dep. destruct (changes_logical (init ws) e); [apply init_no_dependents|reflexivity]. }
-  assert (C : trigger_close (init ws) e = false).
-  { unfold trigger_close. destruct e; try reflexivity.
-    destruct (changes_logical (init ws) (Close p)); [|reflexivity].
-    rewrite get_init. destruct (nth_error ws p); reflexivity. }
   assert (T : trigger_tree (init ws) e = false).
   { unfold trigger_tree. destruct e as [| | | |[] p]; try reflexivity; rewrite init_tree_fresh; reflexivity. }
-  rewrite D, C, T. reflexivity.
+  rewrite D, T. reflexivity.
 Qed.
 
 Lemma run_app_last h : forall st e, fst (run st (h ++ [e])) = fst (step (fst (run st h)) e).
